@@ -57,7 +57,150 @@ def arg_strs(b, t, i):
     return [str_of(c) for (_, c) in consts if str_of(c) is not None]
 
 
+def s7_padding_and_payload_are_independent(ctx):
+    """S7 (SIP022 3.1.3, request header): after the target address the variable-length header carries a padding length, the padding, and then
+    whatever initial payload the client chose to send. Padding (0..=900 bytes) and initial payload are independent: a conforming client may
+    send padding and payload, padding alone, or payload alone (only `neither` may be refused). The receiver's code after it has skipped the
+    padding is evaluated for each of those three cases - the comparisons of the padding length with zero and the `is anything left` tests on
+    the buffer behind the padding are the only inputs, so the case fixes every branch that looks at them - and an accepting return must stay
+    reachable in each. (Bounds checks made *before* the skip are not part of the evaluation.)"""
+    from .common import simulate_cfg, switch_target, returns_variant, accept_blocks
+    prog = ctx.prog
+    n = 0
+    done_sites = set()
+    for b0 in prog.prod_bodies():
+        if b0.root != b0.defp or not b0.defp.startswith("octo_squirrel::codec::shadowsocks::tcp"):
+            continue
+        fb = prog.flat(b0.defp)
+        if not any("Result<octo_squirrel::protocol::address::Address" in fb.local_ty(t["dest"][0]) or "Result<protocol::address::Address" in fb.local_ty(t["dest"][0]) for (_, c, t) in fb.calls()):
+            continue
+        flat_calls = list(fb.calls())
+        fb_root = fb
+        for (ablk, ac, at) in flat_calls:
+            fb = fb_root
+            if ac.name != "Buf::advance" or len(at["args"]) < 2 or op_place(at["args"][1]) is None:
+                continue
+            plocals, pcalls, _ = fb.slice_back([op_place(at["args"][1])[0]])
+            reads = [(rb, rc, rt) for (rb, rc, rt) in pcalls if rc.name == "Buf::get_u16"]
+            addr_before = any(("Address" in fb.local_ty(t["dest"][0]) and "Result<" in fb.local_ty(t["dest"][0])) and fb.can_reach(blk, ablk) for (blk, c, t) in fb.calls())
+            if not reads or not addr_before or fb.origin[ablk] != fb.origin[reads[0][0]] and False:
+                continue
+            # the evaluation is made in the function the skip lives in (a flat view re-joins a helper's Ok and Err returns before the caller's `?`)
+            ob = prog.body(fb.origin[ablk])
+            twin = [(b2, c2, t2) for (b2, c2, t2) in ob.calls() if c2.name == "Buf::advance" and t2.get("sp") == at.get("sp")] if ob is not None else []
+            if not twin or (ob.defp, str(at.get("sp"))) in done_sites:
+                continue
+            done_sites.add((ob.defp, str(at.get("sp"))))
+            fb_flat, fb = fb, ob
+            ablk, ac, at = twin[0]
+            _, pcalls2, _ = fb.slice_back([op_place(at["args"][1])[0]])
+            reads = [(rb, rc, rt) for (rb, rc, rt) in pcalls2 if rc.name == "Buf::get_u16"]
+            if not reads:
+                fb = fb_flat
+                continue
+            pad = {reads[0][2]["dest"][0]}
+            grew = True
+            while grew:          # copies and widening casts of the padding length
+                grew = False
+                for blk in fb.rpo():
+                    for s_ in fb.stmts(blk):
+                        if s_["k"] == "assign" and not s_["p"][1] and s_["rv"]["k"] in ("use", "cast") and s_["p"][0] not in pad:
+                            q = op_place(s_["rv"]["op"])
+                            if q is not None and not q[1] and q[0] in pad:
+                                pad.add(s_["p"][0])
+                                grew = True
+            after = fb.reach_from(at["t"]) if at["t"] is not None else set()
+            if not after:
+                continue
+            n += 1
+
+            def val(l, case, depth=0):
+                """value set of a local under the case (padding>0?, payload?): a set of representative integers, or None if it does not depend on the case alone"""
+                a, pl = case
+                if depth > 10:
+                    return None
+                if l in pad:
+                    return {1, 900} if a else {0}
+                ds = fb.defs().get(l, [])
+                if len(ds) != 1:
+                    return None
+                d = ds[0]
+                if d[0] == "call":
+                    c_ = Callee(d[2]["f"])
+                    if d[1] not in after:
+                        return None
+                    if c_.method == "has_remaining":
+                        return {1} if pl else {0}
+                    if c_.method == "is_empty":
+                        return {0} if pl else {1}
+                    if c_.method in ("remaining", "len") and ("Buf" in c_.name or "BytesMut" in (c_.self_s or "") or "Bytes" in (c_.self_s or "")):
+                        return {1, 70000} if pl else {0}
+                    return None
+                rv = d[3]["rv"]
+                if rv["k"] in ("use", "cast"):
+                    q = op_place(rv["op"])
+                    if q is not None and not q[1]:
+                        return val(q[0], case, depth + 1)
+                    k = op_int(rv["op"])
+                    return {k} if k is not None else None
+                if rv["k"] == "un" and rv["op"] == "Not":
+                    q = op_place(rv["a"])
+                    v = val(q[0], case, depth + 1) if q and not q[1] else None
+                    return {1 - x for x in v} if v is not None and v <= {0, 1} else None
+                if rv["k"] == "bin":
+                    def side(o):
+                        q = op_place(o)
+                        if q is not None and not q[1]:
+                            return val(q[0], case, depth + 1)
+                        k = op_int(o)
+                        return {k} if k is not None else None
+                    va, vb = side(rv["a"]), side(rv["b"])
+                    if va is None or vb is None:
+                        return None
+                    f = {"Eq": lambda x, y: int(x == y), "Ne": lambda x, y: int(x != y), "Lt": lambda x, y: int(x < y), "Le": lambda x, y: int(x <= y),
+                         "Gt": lambda x, y: int(x > y), "Ge": lambda x, y: int(x >= y), "BitAnd": lambda x, y: x & y, "BitOr": lambda x, y: x | y, "BitXor": lambda x, y: x ^ y}.get(rv["op"])
+                    if f is None:
+                        return None
+                    out = {f(x, y) for x in va for y in vb}
+                    return out if len(out) == 1 else None
+                return None
+            rvs = returns_variant(fb)
+            acc = {x for x, v in rvs.items() if v in ("Ok", "Some")} or set(fb.return_blocks())
+            for case, label in (((1, 1), "padding and initial payload"), ((1, 0), "padding only"), ((0, 1), "initial payload only")):
+                def decide(blk, t, case=case):
+                    if blk not in after:
+                        return None
+                    p = op_place(t["d"])
+                    if p is None or p[1]:
+                        return None
+                    v = val(p[0], case)
+                    if v is None or len(v) != 1:
+                        return None
+                    return switch_target(t, next(iter(v)))
+                seen = set()
+                work = [at["t"]]
+                while work:
+                    x = work.pop()
+                    if x in seen:
+                        continue
+                    seen.add(x)
+                    t = fb.term(x)
+                    if t and t["k"] == "switch":
+                        forced = decide(x, t)
+                        if forced is not None:
+                            work.append(forced)
+                            continue
+                    work.extend(fb.succ(x))
+                ok = bool(acc & seen) or not (acc & after)
+                ctx.ob("S7", fb.defp, f"request-accepted-with:{label.replace(' ', '-')}", loc(at["sp"]), ok,
+                       f"a request header with {label} can reach the accepting return" if ok else
+                       f"once the padding is skipped, no accepting return is reachable for a request header with {label}: the receiver refuses a request the specification allows "
+                       "(padding and initial payload are independent; only a header with neither may be refused), so a conforming peer that pads requests which carry payload is locked out")
+    ctx.floor("S7", "request-header decoders that skip padding behind the target address", 1, n)
+
+
 def run(ctx):
+    s7_padding_and_payload_are_independent(ctx)
     prog = ctx.prog
     spec = json.load(open(os.path.join(VERIF, "tables", "spec-constants.json")))
     bodies = [b for b in prog.prod_bodies() if "::_" not in b.defp]
